@@ -150,6 +150,13 @@ type c19Case struct {
 	Refuse string `json:"refuse,omitempty"`
 	// Flood: this many further Write calls after Close (beyond the writer's channel capacity): must return
 	Flood int       `json:"flood,omitempty"`
+	// Bl: size rule: the history ends with these records written back to back and Close called at once,
+	// without waiting for the writer goroutine (Close with a backlog). Which of them are processed
+	// before Close is up to the scheduler and the rotations of this burst are not a second apart, so
+	// neither these records nor the ones written before are demanded any more; what is judged on the
+	// files as they are after Close returned is the size clause: no file holds more than one
+	// record that ends beyond the maximum.
+	Bl []int `json:"bl,omitempty"`
 	Steps []c19Step `json:"steps"`
 }
 
@@ -1876,6 +1883,78 @@ func c19Run(c c19Case, root string, r *c19Result) {
 			return
 		}
 	}
+	// sizeOnly: the size clause on the files as they are on disk (every current file and backup
+	// that can be read; records that cannot be parsed are not counted)
+	sizeOnly := func(what string) bool {
+		cur, msg := e.snapshot()
+		if msg != "" {
+			failf("%s", msg)
+			return false
+		}
+		for _, f := range cur {
+			if f.kind == c19Other || c.Rule != "size" {
+				continue
+			}
+			lg := e.logs[f.lg]
+			beyond := 0
+			for _, p := range f.recs {
+				if p.id < c19OldBase && int64(p.end) > lg.maxSize {
+					beyond++
+				}
+			}
+			if beyond > 1 {
+				failf("%s: file %s (%d bytes) grew beyond the maximum of %d bytes by %d records", what, f.name, len(f.data), lg.maxSize, beyond)
+				return false
+			}
+		}
+		return true
+	}
+	if len(c.Bl) > 0 && c.Rule == "size" && c.MaxSize > 0 {
+		kit.Wait()
+		time.Sleep(time.Second)
+		for _, n := range c.Bl {
+			count[0]++
+			id := count[0]
+			e.optional[id] = true
+			switch {
+			case c.Mode == "":
+				l.Write(c19Rec(id, n))
+			case c.Api == "pkg":
+				e.c19PkgEmit(0, id, c19Payload(id, n), c19Payload(id, n))
+			default:
+				e.c19CwEmit(cw, 0, id, c19Payload(id, n))
+			}
+		}
+		if len(l.channel) >= 2 {
+			r.classes["backlog-at-Close>=2"] = true
+		}
+		closed = true
+		if err := closeAll(); err != nil {
+			r.classes["close-returned-error"] = true
+		}
+		kit.Wait()
+		r.classes["close-with-backlog"] = true
+		if !sizeOnly("after Close with a backlog of up to " + fmt.Sprint(len(c.Bl)) + " records") {
+			return
+		}
+		if c.Mode == "" {
+			for k := 0; k <= c.Flood; k++ {
+				l.Write(c19Rec(c19OldBase-1, 20))
+			}
+			l.Close()
+		} else {
+			for k := 0; k <= c.Flood; k++ {
+				cw.Info(c19Payload(c19OldBase-1, 20))
+			}
+			cw.Close()
+		}
+		kit.Wait()
+		if !sizeOnly("after Close with a backlog, Write after Close and a second Close") {
+			return
+		}
+		r.classes["rule-"+c.Rule] = true
+		return
+	}
 	kit.Wait()
 	closed = true
 	if err := closeAll(); err != nil {
@@ -2197,6 +2276,23 @@ func c19GenMode(rt *rapid.T, logx, pkg bool) c19Case {
 	if logx {
 		if rapid.IntRange(0, 7).Draw(rt, "bad") == 0 {
 			c.Bad = rapid.IntRange(1, 2).Draw(rt, "badKind")
+		}
+	}
+	if c.Rule == "size" && c.MaxSize > 0 && rapid.IntRange(0, 3).Draw(rt, "closeBacklog") == 0 {
+		nb := rapid.IntRange(20, 120).Draw(rt, "nbacklog")
+		lo, hi := c19MinLen, 200
+		if !logx {
+			// two to four records fill a file: the backlog crosses the limit many times
+			if lo < c.MaxSize/4 {
+				lo = c.MaxSize / 4
+			}
+			hi = c.MaxSize/2 + 1
+			if hi < lo {
+				hi = lo
+			}
+		}
+		for k := 0; k < nb; k++ {
+			c.Bl = append(c.Bl, rapid.IntRange(lo, hi).Draw(rt, "backlogLen"))
 		}
 	}
 	if rapid.IntRange(0, 9).Draw(rt, "closeFlood") == 0 {
